@@ -67,6 +67,9 @@ func seqInit() {
 			&fl.If{Cond: fl.B("<=", fl.V("n"), fl.L(i32, 1)), Then: []fl.Stmt{&fl.Return{X: fl.L(i32, 1)}}},
 			&fl.Return{X: fl.B("*", fl.V("n"), fl.C("seq_fact", fl.B("-", fl.V("n"), fl.L(i32, 1))))}}},
 	}
+	for _, f := range seqShared.funcs {
+		f.Shared = true
+	}
 }
 
 func seqOps() []seqOp {
@@ -102,6 +105,13 @@ func seqOps() []seqOp {
 		{"rot-s", func() []fl.Stmt {
 			return []fl.Stmt{as(s, &fl.StructLit{T: seqShared.st, Vals: []fl.Expr{&fl.Cast{X: fl.F(s, "C"), T: i32}, &fl.Cast{X: fl.F(s, "A"), T: i64}, &fl.Cast{X: fl.F(s, "B"), T: u8}}})}
 		}},
+		// the fixed array through an index variable whose value the compiler knows
+		{"a[j]=x", one(as(fl.Ix(a, fl.V("j")), x))},
+		{"y=a[j]", one(as(y, fl.Ix(a, fl.V("j"))))},
+		{"j=2", one(as(fl.V("j"), l(2)))},
+		{"y=-j", one(as(y, &fl.Un{Op: "-", X: fl.V("j")}))},
+		{"x+=j*2", one(&fl.OpAssign{Op: "+=", LHS: x, RHS: fl.B("*", fl.V("j"), l(2))})},
+		{"a[-j]=y", one(as(fl.Ix(a, &fl.Un{Op: "-", X: fl.V("j")}), y))},
 		{"swap-fields", blk(&fl.Let{Name: "t", Init: fl.F(s, "A")}, as(fl.F(s, "A"), &fl.Cast{X: fl.F(s, "C"), T: i32}), as(fl.F(s, "C"), &fl.Cast{X: fl.V("t"), T: u8}))},
 		{"a[1]=x", one(as(fl.Ix(a, l(1)), x))},
 		{"a[-1]=a[0]+1", one(as(fl.Ix(a, l(-1)), fl.B("+", fl.Ix(a, l(0)), l(1))))},
@@ -162,13 +172,15 @@ func seqCase(ops []seqOp, idx []int) *prog.Case {
 			&fl.Let{Name: "s", Init: &fl.StructLit{T: seqShared.st, Vals: []fl.Expr{l(1), fl.L(i64, 2), fl.L(u8, 3)}}},
 			&fl.Let{Name: "a", T: fl.TArr{N: 3, Elem: i32}, Init: &fl.ArrLit{Elems: []fl.Expr{l(10), l(20), l(30)}}},
 			&fl.Let{Name: "d", T: fl.TDyn{Elem: i32}, Init: &fl.ArrLit{Elems: []fl.Expr{l(7), l(8)}}},
+			// an index the compiler can follow (only ever assigned constants)
+			&fl.Let{Name: "j", T: i32, Init: l(1)},
 		}
 		for _, i := range idx {
 			body = append(body, ops[i].body()...)
 		}
 		x, s, a, d := fl.V("x"), fl.V("s"), fl.V("a"), fl.V("d")
 		for _, e := range []fl.Expr{x, fl.V("y"), fl.V("b"), fl.V("w"), fl.F(s, "A"), fl.F(s, "B"), fl.F(s, "C"),
-			fl.Ix(a, l(0)), fl.Ix(a, l(1)), fl.Ix(a, l(2)), &fl.Len{X: d}, fl.Ix(d, l(0)), fl.Ix(d, l(1)), fl.Ix(d, l(-1))} {
+			fl.Ix(a, l(0)), fl.Ix(a, l(1)), fl.Ix(a, l(2)), &fl.Len{X: d}, fl.Ix(d, l(0)), fl.Ix(d, l(1)), fl.Ix(d, l(-1)), fl.V("j"), fl.Ix(a, fl.V("j"))} {
 			body = append(body, fl.P(e))
 		}
 		// the state lives in a helper, not in main: its locals are ordinary stack variables
@@ -206,6 +218,31 @@ func SeqWithout(quick bool, skip ...string) []*prog.Case {
 }
 
 func famSeq(quick bool) []*prog.Case { return seqFrom(seqOps(), quick) }
+
+// SeqBases: the sequences used as base programs of the metamorphic check C09: every single
+// operation, and every pair - quick: pairs over the operations whose compilation consults what
+// the compiler knows about values (index variable, branches, loops, closures, references).
+func SeqBases(quick bool) []*prog.Case {
+	ops := seqOps()
+	if !quick {
+		return seqFrom(ops, true)
+	}
+	sens := map[string]bool{"a[j]=x": true, "y=a[j]": true, "j=2": true, "y=-j": true, "x+=j*2": true, "a[-j]=y": true, "if-swap": true, "while": true,
+		"match-x": true, "closure": true, "ref-local": true, "y=get(&x)": true, "for-range": true, "catch": true}
+	var out []*prog.Case
+	for i := range ops {
+		out = append(out, seqCase(ops, []int{i}))
+	}
+	core := map[string]bool{"a[j]=x": true, "y=a[j]": true, "j=2": true, "y=-j": true, "a[-j]=y": true, "if-swap": true}
+	for i := range ops {
+		for j := range ops {
+			if sens[ops[i].id] && sens[ops[j].id] && (core[ops[i].id] || core[ops[j].id]) && (core[ops[i].id] && core[ops[j].id]) {
+				out = append(out, seqCase(ops, []int{i, j}))
+			}
+		}
+	}
+	return out
+}
 
 func seqFrom(ops []seqOp, quick bool) []*prog.Case {
 	var out []*prog.Case
